@@ -217,9 +217,16 @@ func run(seed int64, n int, dir string, _ []string) {
 	}
 	bin := os.Getenv("VERIF_CSVQ")
 
+	if bin != "" && os.Getenv("VERIF_RELOAD") == "only" {
+		lockedReload(o, bin, scratch)
+		bin = ""
+	}
 	if bin != "" {
 		finalisationCorpus(o, bin, scratch)
 		headerlessCorpus(o, bin, scratch)
+		if os.Getenv("VERIF_RELOAD") != "" {
+			lockedReload(o, bin, scratch)
+		}
 	}
 	for h := 0; h < n; h++ {
 		oneHistory(g, o, scratch, bin, h)
